@@ -273,6 +273,9 @@ class Parser:
             if ov in STR_OPS:
                 cased, kind, neg = STR_OPS[ov]
                 parts = tuple(self.string())
+                if kind != "eq" and not self.k["allow_special"] and any(p in (R.MULTI, R.SINGLE) for p in parts):
+                    self.i -= 1
+                    self.fail(f"wildcard inside the value of {ov}, which this target does not interpret (allow_special is off)")
                 if kind == "sw":
                     parts = parts + (R.MULTI,)
                 elif kind == "ew":
@@ -316,7 +319,11 @@ class Parser:
                         self.next()
                         items.append(F.a_num(fld, pv))
                     else:
-                        items.append(F.a_str(fld, False, self.string()))
+                        parts = self.string()
+                        if not self.k["in_wild"] and any(p in (R.MULTI, R.SINGLE) for p in parts):
+                            self.i -= 1
+                            self.fail("wildcard inside a list value, which this target does not interpret (in_expressions_allow_wildcards is off)")
+                        items.append(F.a_str(fld, False, parts))
                     pk, pv, _ = self.next()
                     if (pk, pv) == ("sym", "]"):
                         break
